@@ -288,6 +288,19 @@ impl EmbeddingValidator {
             });
         }
 
+        // A decoded vector is not built by a constructor: its two arrays can differ in length,
+        // and `SparseVector::get` would then index past the shorter one.
+        if embedding.positions().len() != embedding.values().len() {
+            return Err(ChainError::InvalidEmbedding {
+                dimension: dim,
+                reason: format!(
+                    "{field}: {} positions but {} values",
+                    embedding.positions().len(),
+                    embedding.values().len()
+                ),
+            });
+        }
+
         // Check that positions are sorted and within bounds
         let positions = embedding.positions();
         for (i, &pos) in positions.iter().enumerate() {
